@@ -19,7 +19,7 @@ ENTRIES = {
 }
 READERS = ["deb822_lossless::lossless::Deb822::read", "deb822_lossless::lossless::Deb822::read_relaxed",
            "deb822_lossless::lossless::Deb822::from_file", "deb822_lossless::lossless::Deb822::from_file_relaxed"]
-FLOOR_CELLS = 6 * 131
+FLOOR_CELLS = 524      # 4 modes x 131 character classes; today 6 modes (786 cells)
 
 
 class EntryMod(deb822_parse.Mod):
